@@ -24,6 +24,73 @@ def eff_seg(c) -> int:
     return derived if c["seg"] is None else min(c["seg"], derived)
 
 
+def judge_stream(c, src, seq, pre_stream, pre_covered, emitted, bad):
+    """Per-PDU oracle of the NAK-free stream, re-derived from the (effective) configuration ``c``:
+    ``src`` the source file's bytes, ``seq`` the expected transaction sequence number."""
+    w = max(c["idw_s"], c["idw_d"])
+    stream = list(pre_stream)
+    covered = pre_covered
+    nfd = 0
+    size = 0 if c["md_only"] else len(src)
+    seg = eff_seg(c)
+    for d in emitted:
+        t = d["T"]
+        want = dict(src=[1, w], dst=[2, w], seq=[seq, c["seqw"]], mode="ACKNOWLEDGED" if c["mode"] == "ack" else "UNACKNOWLEDGED",
+                    crc="WITH_CRC" if c["crc_flag"] else "NO_CRC", dir="TOWARDS_RECEIVER", large="NORMAL")
+        for k, val in want.items():
+            if d[k] != val:
+                bad("C07.header", f"{t} PDU header field {k} = {d[k]!r}, expected {val!r}", field=k, T=t)
+        if d["packed"] != d["plen"]:
+            bad("C07.packet_len", f"{t} PDU packet_len {d['plen']} but pack() yields {d['packed']} bytes", T=t)
+        if t in ("FD", "EOF", "ACK") and d["plen"] > c["mpl"]:
+            bad("C07.max_packet_len", f"{t} PDU of {d['plen']} bytes exceeds max_packet_len {c['mpl']}", T=t)
+        if t == "MD":
+            if stream:
+                bad("C07.order", f"Metadata PDU emitted after {stream}", T=t)
+            exp = dict(size=size, sname=None if c["md_only"] else c.get("_sname", core.SRC_PATH),
+                       dname=None if c["md_only"] else core.dest_path_requested(c),
+                       cks="NULL_CHECKSUM" if c["md_only"] else core.CKS[c["cks"]].name, closure=c["closure"])
+            for k, val in exp.items():
+                if d[k] != val:
+                    bad("C07.metadata", f"Metadata field {k} = {d[k]!r}, expected {val!r}", field=k)
+        elif t == "FD":
+            nfd += 1
+            ln = len(d["data"]) // 2
+            if not stream or stream[0] != "MD":
+                bad("C07.order", "File Data before Metadata", T=t)
+            if "EOF" in stream:
+                bad("C07.order", "File Data after the EOF", T=t)
+            if d["off"] != covered:
+                bad("C07.tiling", f"File Data at offset {d['off']} but {covered} bytes were sent so far (gap, overlap or repetition)", kind="offset")
+            if ln == 0 or ln > seg:
+                bad("C07.segment_len", f"File Data PDU carries {ln} bytes, effective segment length is {seg}", kind="len")
+            if d["off"] + ln > size:
+                bad("C07.tiling", f"File Data [{d['off']},{d['off'] + ln}) beyond the file size {size}", kind="beyond")
+            elif bytes.fromhex(d["data"]) != src[d["off"]:d["off"] + ln]:
+                bad("C07.data", f"File Data at {d['off']} = {d['data']} but the file has {src[d['off']:d['off'] + ln].hex()}")
+            covered += ln
+        elif t == "EOF":
+            if "EOF" in stream:
+                bad("C07.order", "second EOF PDU on a fault-free link", T=t)
+            if covered != size:
+                bad("C07.tiling", f"EOF after {covered} of {size} bytes", kind="incomplete")
+            if d["size"] != size:
+                bad("C07.eof", f"EOF file size {d['size']}, file has {size} bytes", field="size")
+            wantc = refcks.REF[c["cks"]](src).hex()
+            if d["cks"] != wantc:
+                bad("C07.eof", f"EOF checksum {d['cks']}, reference {c['cks']} checksum of the file is {wantc}", field="checksum")
+            if d["cond"] != "NO_ERROR":
+                bad("C07.eof", f"EOF condition {d['cond']}", field="cond")
+        elif t == "ACK":
+            if d["of"] != "FINISHED_PDU":
+                bad("C07.order", f"unexpected ACK of {d['of']}", T=t)
+        else:
+            bad("C07.order", f"unexpected {t} PDU from the source", T=t)
+        stream.append(t)
+    if nfd > 1:
+        bad("C07.flow_control", f"{nfd} File Data PDUs emitted by one state-machine call")
+
+
 class C07World(SrcWorld):
     prop = P
     name = "SRC-C07"
@@ -52,9 +119,7 @@ class C07World(SrcWorld):
         st.m = m
 
     def check(self, st, ev, out):
-        c = self.c
         v = []
-        w = max(c["idw_s"], c["idw_d"])
 
         def bad(clause, msg, **d):
             v.append(Violation(P, clause, f"{ev} ({out['pre_step']} -> {out['post_step']}): {msg}", **d))
@@ -66,66 +131,7 @@ class C07World(SrcWorld):
             bad("C07.fault", f"fault callback {self.faults(out)}")
         for r in out.get("S", {}).get("reparse", []):
             bad("C07.serialisation", f"{r['T']} PDU does not survive pack()/PduFactory.from_raw: {r}", T=r["T"], what=sorted(r)[0] if "diff" not in r else "diff:" + ",".join(sorted(r["diff"])))
-        stream = list(out["pre_stream"])
-        covered = out["pre_covered"]
-        nfd = 0
-        size = 0 if c["md_only"] else len(st.src)
-        seg = eff_seg(c)
-        for d in self.emitted(out):
-            t = d["T"]
-            want = dict(src=[1, w], dst=[2, w], seq=[0, c["seqw"]], mode="ACKNOWLEDGED" if c["mode"] == "ack" else "UNACKNOWLEDGED",
-                        crc="WITH_CRC" if c["crc_flag"] else "NO_CRC", dir="TOWARDS_RECEIVER", large="NORMAL")
-            for k, val in want.items():
-                if d[k] != val:
-                    bad("C07.header", f"{t} PDU header field {k} = {d[k]!r}, expected {val!r}", field=k, T=t)
-            if d["packed"] != d["plen"]:
-                bad("C07.packet_len", f"{t} PDU packet_len {d['plen']} but pack() yields {d['packed']} bytes", T=t)
-            if t in ("FD", "EOF", "ACK") and d["plen"] > c["mpl"]:
-                bad("C07.max_packet_len", f"{t} PDU of {d['plen']} bytes exceeds max_packet_len {c['mpl']}", T=t)
-            if t == "MD":
-                if stream:
-                    bad("C07.order", f"Metadata PDU emitted after {stream}", T=t)
-                exp = dict(size=size, sname=None if c["md_only"] else core.SRC_PATH, dname=None if c["md_only"] else core.dest_path_requested(c),
-                           cks="NULL_CHECKSUM" if c["md_only"] else core.CKS[c["cks"]].name, closure=c["closure"])
-                for k, val in exp.items():
-                    if d[k] != val:
-                        bad("C07.metadata", f"Metadata field {k} = {d[k]!r}, expected {val!r}", field=k)
-            elif t == "FD":
-                nfd += 1
-                ln = len(d["data"]) // 2
-                if not stream or stream[0] != "MD":
-                    bad("C07.order", "File Data before Metadata", T=t)
-                if "EOF" in stream:
-                    bad("C07.order", "File Data after the EOF", T=t)
-                if d["off"] != covered:
-                    bad("C07.tiling", f"File Data at offset {d['off']} but {covered} bytes were sent so far (gap, overlap or repetition)", kind="offset")
-                if ln == 0 or ln > seg:
-                    bad("C07.segment_len", f"File Data PDU carries {ln} bytes, effective segment length is {seg}", kind="len")
-                if d["off"] + ln > size:
-                    bad("C07.tiling", f"File Data [{d['off']},{d['off'] + ln}) beyond the file size {size}", kind="beyond")
-                elif bytes.fromhex(d["data"]) != st.src[d["off"]:d["off"] + ln]:
-                    bad("C07.data", f"File Data at {d['off']} = {d['data']} but the file has {st.src[d['off']:d['off'] + ln].hex()}")
-                covered += ln
-            elif t == "EOF":
-                if "EOF" in stream:
-                    bad("C07.order", "second EOF PDU on a fault-free link", T=t)
-                if covered != size:
-                    bad("C07.tiling", f"EOF after {covered} of {size} bytes", kind="incomplete")
-                if d["size"] != size:
-                    bad("C07.eof", f"EOF file size {d['size']}, file has {size} bytes", field="size")
-                wantc = refcks.REF[c["cks"]](st.src).hex()
-                if d["cks"] != wantc:
-                    bad("C07.eof", f"EOF checksum {d['cks']}, reference {c['cks']} checksum of the file is {wantc}", field="checksum")
-                if d["cond"] != "NO_ERROR":
-                    bad("C07.eof", f"EOF condition {d['cond']}", field="cond")
-            elif t == "ACK":
-                if d["of"] != "FINISHED_PDU":
-                    bad("C07.order", f"unexpected ACK of {d['of']}", T=t)
-            else:
-                bad("C07.order", f"unexpected {t} PDU from the source", T=t)
-            stream.append(t)
-        if nfd > 1:
-            bad("C07.flow_control", f"{nfd} File Data PDUs emitted by one state-machine call")
+        judge_stream(self.c, st.src, 0, out["pre_stream"], out["pre_covered"], self.emitted(out), bad)
         return v
 
     def terminal_check(self, st):
